@@ -333,7 +333,13 @@ def run(ctx):
             continue
         # locate the scenario, re-validate the others one by one is too slow: walk forward
         todo = ch
+        walks = 0
         while todo:
+            walks += 1
+            if walks > 3 or sum(ctx.drift.values()) >= 8:
+                # drift is established; locating every further deviating scenario costs one TLC run each
+                ctx.notes.append("design validation stopped early after repeated rejections (%d scenarios not examined)" % len(todo))
+                break
             acc, hwm, n, viol, owner, r = validate(ctx, "JsonRpcTrace", "JsonRpcTrace.cfg", todo, 1, 1500)
             if acc:
                 accepted += len(todo)
